@@ -104,7 +104,11 @@ type scripted struct {
 	script   []outcome
 	attempts []attempt
 	op       string
+	// malformedKind selects which malformed body the first malformed attempt gets
+	malformedKind int
 }
+
+var malformedBodies = []string{"{not json", "", "   \n", `{"Value":"c2lnbmF0dXJlLWJ5dGVz"} trailing`, `{"Value":"c2ln"}{"Err":"second object"}`}
 
 func jsonResp(req *http.Request, status int, v any) *http.Response {
 	blob, _ := json.Marshal(v)
@@ -155,7 +159,9 @@ func (s *scripted) RoundTrip(req *http.Request) (*http.Response, error) {
 	case oKeyUsage:
 		return jsonResp(req, 200, workerrpc.Response{Err: "key cannot be used for signing", Usage: true, Key: "thekey"}), nil
 	case oMalformed:
-		return &http.Response{StatusCode: 200, Status: "200 OK", Body: io.NopCloser(bytes.NewReader([]byte("{not json"))), Header: http.Header{}, Request: req}, nil
+		// not a JSON object: broken syntax, empty body, blank body, or an object followed by garbage
+		body := malformedBodies[(i+s.malformedKind)%len(malformedBodies)]
+		return &http.Response{StatusCode: 200, Status: "200 OK", Body: io.NopCloser(bytes.NewReader([]byte(body))), Header: http.Header{}, Request: req}, nil
 	}
 	panic("unreachable")
 }
@@ -187,6 +193,7 @@ func TestC15_RetryModel(t *testing.T) {
 		op := rapid.SampledFrom([]string{"ping", "getkey", "sign"}).Draw(rt, "op")
 		n := rapid.IntRange(0, 9).Draw(rt, "scriptlen")
 		bias := rapid.IntRange(0, 2).Draw(rt, "bias")
+		malformedKind := rapid.IntRange(0, len(malformedBodies)-1).Draw(rt, "malformed_kind")
 		var script []outcome
 		for i := 0; i < n; i++ {
 			var o outcome
@@ -194,7 +201,7 @@ func TestC15_RetryModel(t *testing.T) {
 			case 0:
 				o = outcome(rapid.IntRange(0, int(numOutcomes)-1).Draw(rt, "outcome"))
 			default: // mostly transient, so that long retry chains occur
-				o = rapid.SampledFrom([]outcome{oHTTP503, oHTTP500, oRefused, oTokenRetryable, oTimeout, oHTTP502, oHTTP504, oHTTP507, oKeyUsage, oSuccess, oTokenFatal}).Draw(rt, "outcome")
+				o = rapid.SampledFrom([]outcome{oHTTP503, oHTTP500, oRefused, oTokenRetryable, oTimeout, oHTTP502, oHTTP504, oHTTP507, oKeyUsage, oSuccess, oTokenFatal, oMalformed}).Draw(rt, "outcome")
 			}
 			script = append(script, o)
 		}
@@ -218,7 +225,7 @@ func TestC15_RetryModel(t *testing.T) {
 		}
 		var nAttempts int
 		synctest.Test(t, func(*testing.T) {
-			tr := &scripted{script: script, op: op}
+			tr := &scripted{script: script, op: op, malformedKind: malformedKind}
 			old := http.DefaultClient.Transport
 			http.DefaultClient.Transport = tr
 			defer func() { http.DefaultClient.Transport = old }()
@@ -546,6 +553,105 @@ func TestC15_HandlerAndCookie(t *testing.T) {
 		isTemp := errors.As(err, &te) && te.Temporary()
 		if isTemp != (errKind == "generic") {
 			fail("error %q: retryable=%v, want %v for token error %s", err, isTemp, errKind == "generic", errKind)
+		}
+	})
+}
+
+// ---------- pinned key identifiers end to end: client -> RPC -> handler -> cache -> token ----------
+
+// A key handle obtained from the worker client remembers the key identifier it was
+// given; signing with that handle must be done by that very key even after the token
+// rotated the key under the same name and the worker's cache holds the new one.
+func TestC15_PinnedKeyEndToEnd(t *testing.T) {
+	rapid.Check(t, func(rt *rapid.T) {
+		expiry := time.Duration(rapid.SampledFrom([]int{0, 10, 600}).Draw(rt, "expiry_s")) * time.Second
+		nsteps := rapid.IntRange(2, 20).Draw(rt, "steps")
+		type step struct {
+			Kind   string `json:"op"`
+			Handle int    `json:"handle,omitempty"`
+			Adv    int    `json:"advance_s,omitempty"`
+		}
+		var steps []step
+		handles := 0
+		for i := 0; i < nsteps; i++ {
+			k := rapid.SampledFrom([]string{"getkey", "getkey", "sign", "sign", "sign", "rotate", "advance"}).Draw(rt, "op")
+			if k == "sign" && handles == 0 {
+				k = "getkey"
+			}
+			s := step{Kind: k}
+			switch k {
+			case "getkey":
+				handles++
+			case "sign":
+				s.Handle = rapid.IntRange(0, handles-1).Draw(rt, "handle")
+			case "advance":
+				s.Adv = rapid.SampledFrom([]int{1, 9, 11, 601}).Draw(rt, "advance")
+			}
+			steps = append(steps, s)
+		}
+		var failure string
+		rotations, staleSigns := 0, 0
+		synctest.Test(t, func(*testing.T) {
+			ft := &fakeToken{current: "id-1", known: []string{"id-1"}, conf: &config.TokenConfig{}}
+			h := workercmd.NewVerifHandler(ft, expiry, "right-cookie", func() {})
+			old := http.DefaultClient.Transport
+			http.DefaultClient.Transport = handlerTransport{h}
+			defer func() { http.DefaultClient.Transport = old }()
+			wt, err := worker.NewVerifClient(testConfig(1, 5), "tok", "worker.invalid:1", "right-cookie")
+			if err != nil {
+				failure = "hook: " + err.Error()
+				return
+			}
+			type held struct {
+				key token.Key
+				id  string
+			}
+			var hs []held
+			g := 1
+			for i, s := range steps {
+				switch s.Kind {
+				case "rotate":
+					g++
+					rotations++
+					ft.mu.Lock()
+					ft.current = fmt.Sprintf("id-%d", g)
+					ft.known = append(ft.known, ft.current)
+					ft.mu.Unlock()
+				case "advance":
+					time.Sleep(time.Duration(s.Adv) * time.Second)
+				case "getkey":
+					k, err := wt.GetKey(context.Background(), "thekey")
+					if err != nil {
+						failure = fmt.Sprintf("step %d: get-key failed: %v", i, err)
+						return
+					}
+					hs = append(hs, held{k, string(k.GetID())})
+				case "sign":
+					hd := hs[s.Handle]
+					sig, err := hd.key.SignContext(context.Background(), []byte("digest-digest-digest-digest-1234"), crypto.SHA256)
+					if hd.id != fmt.Sprintf("id-%d", g) {
+						staleSigns++
+					}
+					if err != nil {
+						failure = fmt.Sprintf("step %d: signing with the handle for %s failed although the token still has that key: %v", i, hd.id, err)
+						return
+					}
+					if string(sig) != "sig-by-"+hd.id {
+						failure = fmt.Sprintf("step %d: handle pinned to key %s, but the signature was made by %q (token currently holds id-%d)", i, hd.id, sig, g)
+						return
+					}
+				}
+			}
+		})
+		desc := map[string]any{"expiry": expiry.String(), "steps": steps}
+		rec.Case(fmt.Sprintf("pinned|%v|%v", expiry, steps), fmt.Sprintf("pinned-e2e/expiry=%v/stale-signs=%d", expiry, min(staleSigns, 3)), staleSigns > 0)
+		if staleSigns > 0 {
+			rec.Sample("pinned-e2e", desc)
+		}
+		if failure != "" {
+			desc["error"] = failure
+			evid.SaveCase("TestC15_PinnedKeyEndToEnd", desc)
+			rt.Fatalf("%s\n %v", failure, desc)
 		}
 	})
 }
